@@ -2168,6 +2168,10 @@ impl SpeechRules {
         if check_rule_files != "None" {  // "Prefs" or "All" are other values
             self.pref_manager.borrow_mut().set_preference_files()?;
         }
+        if check_rule_files == "All" {
+            // a file might have appeared or disappeared (the location of a fallback file is used if a file doesn't exist)
+            self.pref_manager.borrow_mut().recompute_file_locations()?;
+        }
         let should_ignore_file_time = self.pref_manager.borrow().pref_to_string("CheckRuleFiles") != "All";     // ignore for "None", "Prefs"
         let rule_file = self.pref_manager.borrow().get_rule_file(&self.name).to_path_buf();     // need to create PathBuf to avoid a move/use problem
         if self.rules.is_empty() || !self.rule_files.is_file_up_to_date(&rule_file, should_ignore_file_time) {
